@@ -597,6 +597,29 @@ def check_split_frontmatter(ctx: Ctx) -> None:
         ctx.ob("R-FRONTMATTER-verbatim", f"{sf.qual} :: frontmatter = join of one slice of the input's lines", ok,
                "the frontmatter block (its `---` lines included) must be cut out of the input's own lines, not rebuilt from constants or "
                f"several pieces: `{norm(e)[:70]}`", where(sf, nd))
+    # ... and so is the body: the rest of the same line list. Cutting the body out of the *raw* text with an offset computed
+    # from the (CRLF-folded) lines does not index the raw text.
+    for r in flow0.cfg.returns():
+        v = r.ast.value
+        if not (isinstance(v, ast.Tuple) and len(v.elts) == 2):
+            continue
+        second = v.elts[1]
+        if isinstance(second, ast.Constant) or (isinstance(second, ast.Name) and second.id == p):
+            continue
+        e2 = expand_expr(prog, sf, second, r, strict=False)
+        ok2 = False
+        if isinstance(e2, ast.Call) and isinstance(e2.func, ast.Attribute) and e2.func.attr == "join" and isinstance(e2.func.value, ast.Constant) \
+                and e2.func.value.value == "\n" and e2.args:
+            a2 = e2.args[0]
+            src = a2.value if isinstance(a2, ast.Subscript) and isinstance(a2.slice, ast.Slice) and a2.slice.step is None else None
+            if isinstance(src, ast.Call) and isinstance(src.func, ast.Attribute) and src.func.attr == "split":
+                ok2 = True  # expanded through `lines = text....split("\n")`
+            elif isinstance(src, ast.Name):
+                ok2 = any(d.kind == "assign" and isinstance(d.value, ast.Call) and isinstance(d.value.func, ast.Attribute) and d.value.func.attr == "split"
+                          for d in flow0.reaching(r, src.id))
+        ctx.ob("R-FRONTMATTER-verbatim", f"{sf.qual} :: body = join of the remaining lines", ok2,
+               "the body must be the remaining lines of the same split, rejoined with '\\n' (not a slice of the raw text by a computed "
+               f"offset, which is wrong as soon as CRLF was folded): `{norm(e2)[:80]}`", where(sf, r))
     # the no-frontmatter path returns the input itself
     flow = prog.flow(sf)
     ident = 0
